@@ -1055,6 +1055,20 @@ def run(c):
                   "saved_document_hex": hx(doc) if doc is not None else None, "loaded": loaded, "loaded_tree": dumped,
                   "expected_tree": tdump(norm(small)),
                   "api_recipe": api_recipe(small)})
+    # ---- save/load through FILES, several times on one config, the tree changed in between by every route (setters, a whole
+    # new document loaded from a stream, a sub-tree replaced): the file must hold the tree as it is at each save.
+    # Implementation only; the expected tree is the one the stream round trip (`rt`, compared with the model above) gives.
+    docs = [b"a: 1\nb:\n  - x\n  - y", b"c: 2", b"a: 1\nb:\n  - x\n  - y\n  - z", b"m:\n  k: v\n  l: w"]
+    fops = ["new cpp"]
+    for d_ in docs + docs[:2]:
+        fops += ["parse " + hx(d_), "rt", "frt"]
+    fops += ["set %s s %s" % (hx(b"m/k"), hx(b"changed")), "rt", "frt", "raw " + tdump({b"q": [b"1", b"2"]}), "rt", "frt",
+             "parse " + hx(docs[1]), "rt", "frt", "frt"]
+    rcf, fouts, flog = impl.run(fops)
+    stats["file_roundtrips"] = sum(1 for o_ in fops if o_ == "frt")
+    bad_ = file_rt_monitor(fops, fouts) if len(fouts) >= len(fops) else None
+    if bad_:
+        o_fail.setdefault(bad_[0], {"ops": fops, "what": bad_[1]})
     for sig, case in sorted(o_fail.items()):
         small = shrink_ops(impl, case["ops"], sig)
         c.report(sig, case["what"], {"kind": "ops", "ops": small})
@@ -1193,6 +1207,25 @@ def monitor_case(ops, meta, outs, stats, distinct):
     return None
 
 
+def file_rt_monitor(ops, outs):
+    """`frt` (SaveToFile + LoadFromFile) must give the tree the preceding `rt` (stream round trip) gave -> (sig, what) | None"""
+    last_rt = None
+    for op_, out_ in zip(ops, outs):
+        if op_ == "rt":
+            m_ = re.match(r"rt save=1 load=1 tree=(\S+)", out_)
+            last_rt = m_.group(1) if m_ else None
+        elif op_ == "frt" and last_rt is not None:
+            m_ = re.match(r"frt save=(\d) load=(\d) tree=(\S+)", out_)
+            if not m_ or m_.group(1) != "1" or m_.group(2) != "1" or m_.group(3) != last_rt:
+                return ("C18:save-load:file-not-the-current-tree",
+                        "SaveToFile + LoadFromFile does not give back the tree the config holds (stream round trip: %s, file round "
+                        "trip: %s)" % (last_rt, out_))
+        elif not op_.startswith(("frt", "rt")):
+            if op_.startswith(("parse", "set", "raw", "new")):
+                last_rt = None
+    return None
+
+
 def monitor_ops_only(ops, outs):
     """corpus op files carry no metadata: re-derive the set groups"""
     meta = []
@@ -1215,6 +1248,8 @@ def monitor_ops_only(ops, outs):
         else:
             meta.append((p[0],))
     stats = {"set_ops": 0, "set_ret0": 0, "set_ops_canonical": 0, "get_ops": 0, "typed_gets_checked": 0, "alias_checks": 0}
+    if "frt" in ops:
+        return file_rt_monitor(ops, outs)
     return monitor_case(ops, meta, outs, stats, set())
 
 
